@@ -198,7 +198,17 @@ class TriSpectrum(numpy.ma.masked_array):
             line = fid.readline()
 
         # Read the shape of the data
-        shape,folded_major,folded_ancestral,extrap_x,extrap_t = line.split()
+        # to_file leaves the folding tokens out with foldmaskinfo=False and the
+        # extrapolation values with extrapinfo=False.
+        tokens = line.split()
+        shape, tokens = tokens[0], tokens[1:]
+        folded_major, folded_ancestral = 'unfolded_major', 'unfolded_ancestral'
+        extrap_x, extrap_t = 'None', 'None'
+        if len(tokens) in (2,4) and tokens[0].endswith('folded_major'):
+            folded_major, folded_ancestral = tokens[:2]
+            tokens = tokens[2:]
+        if len(tokens) == 2:
+            extrap_x, extrap_t = tokens
         shape = [int(shape)+1,int(shape)+1]
 
         data = numpy.fromstring(fid.readline().strip(), 
@@ -207,9 +217,13 @@ class TriSpectrum(numpy.ma.masked_array):
         data = data.reshape(*shape)
 
         maskline = fid.readline().strip()
-        mask = numpy.fromstring(maskline, 
-                                count=numpy.prod(shape), sep=' ')
-        mask = mask.reshape(*shape)
+        if maskline:
+            mask = numpy.fromstring(maskline, 
+                                    count=numpy.prod(shape), sep=' ')
+            mask = mask.reshape(*shape)
+        else:
+            # Written with foldmaskinfo=False: no mask line.
+            mask = numpy.ma.nomask
         
         if folded_major == 'folded_major':
             folded_major = True
